@@ -3,6 +3,7 @@ CONSTANTS
   Reloaders = {1}
   Validators = {1, 2, 3}
   InPlace = FALSE
+  Leftover = FALSE
 INIT Init
 NEXT Next
 INVARIANTS NoTornRead Monotone KeepOld
